@@ -48,7 +48,7 @@ func c10Alphabet() []string {
 	}
 	// a timer handle obtained once and kept by the application, also across Close and drop of its scope
 	a = append(a, "reckept sub.t 1")
-	a = append(a, "exec ok", "exec fail", "close sub")
+	a = append(a, "exec ok", "exec fail", "exec nested", "close sub")
 	return a
 }
 
@@ -262,7 +262,7 @@ func c10Exec(path histPath, alphabet []string) func(hist []int) (string, string,
 					closeScope(e.sub)
 					closedSub = true
 					steps++
-				case closedSub && (name == "exec ok" || name == "exec fail" || name == "start hist"):
+				case closedSub && (name == "exec ok" || name == "exec fail" || name == "exec nested" || name == "start hist"):
 					// buffered metrics recorded on a closed scope are outside the property
 					continue
 				case name == "pass":
@@ -311,6 +311,45 @@ func c10Exec(path histPath, alphabet []string) func(hist []int) (string, string,
 				case len(name) > 8 && name[:8] == "advance ":
 					fmt.Sscanf(name, "advance %d", &d)
 					e.now = e.now.Add(time.Duration(d))
+				case name == "exec nested":
+					// two executions of ONE Call overlap (here: the function of the first executes the Call again; two
+					// request handlers sharing a Call do the same): each records its own latency
+					lat := n("p", "s", "call", "latency")
+					m := mark()
+					var icl, idd string
+					var igot error
+					m2, inner, outer := 0, 0, 0
+					got := e.call.Exec(func() error {
+						outer++
+						e.now = e.now.Add(3)
+						igot = e.call.Exec(func() error {
+							inner++
+							e.now = e.now.Add(5)
+							return errExec
+						})
+						icl, idd = expectTimer(m, lat, subTags, 5, "the inner of two nested executions of one Call (3 ns into the outer one, 5 ns long)")
+						m2 = mark()
+						e.now = e.now.Add(7)
+						return nil
+					})
+					steps += 2
+					if inner != 1 || outer != 1 {
+						return "exec-called-function-not-once", fmt.Sprintf("nested executions: outer function called %d times, inner %d times", outer, inner)
+					}
+					if got != nil || igot != errExec {
+						return "exec-error-not-returned-unchanged", fmt.Sprintf("nested executions: outer Exec returned %v (function returned nil), inner Exec returned %v (function returned %v)", got, igot, errExec)
+					}
+					e.pendCnt["error"]++
+					e.pendCnt["success"]++
+					if icl == "" {
+						icl, idd = expectTimer(m2, lat, subTags, 15, "the outer of two nested executions of one Call (15 ns long, the inner one started 3 ns in)")
+					}
+					if icl != "" {
+						if icl == "timer-not-forwarded-exactly-once" || icl == "timer-delivery-wrong" || icl == "timer-values-wrong" {
+							icl = "exec-latency-wrong"
+						}
+						return icl, idd
+					}
 				case name == "exec ok" || name == "exec fail":
 					var want error
 					if name == "exec fail" {
